@@ -23,10 +23,10 @@ theorem verifyDeal_fresh_state (g : G) (dealer : G) (vs : List G) (d : Deal F G)
     let a1 := (verifyDeal g a0 d true).1
     a1.vs = vs ∧ a1.dealer = dealer ∧ a1.sid = d.sid ∧ a1.responses = List.replicate vs.length none ∧
     a1.badDealer = false ∧ (a1.deal = none ∨ a1.deal = some d) ∧
-    ((verifyDeal g a0 d true).2 = none → a1.deal = some d) := by
+    ((verifyDeal g a0 d true).2 = none → a1.deal = some d) ∧ a1.t = d.t := by
   intro a0 a1
   have hfr := verifyDeal_frame g a0 d true
-  refine ⟨hfr.1, hfr.2.1, ?_, hfr.2.2.1, hfr.2.2.2.1, ?_, ?_⟩
+  refine ⟨hfr.1, hfr.2.1, ?_, hfr.2.2.1, hfr.2.2.2.1, ?_, ?_, hfr.2.2.2.2⟩
   all_goals
     simp only [a1, a0]
     unfold verifyDeal
@@ -48,7 +48,7 @@ theorem pe_fresh (g : G) (v : Verifier F G) (e : EncDeal F G) (rnd : Nat)
       (∀ sh, d.share = some sh → sh.i = (v.index : Int)) ∧
       a.vs = v.vs ∧ a.dealer = v.dealer ∧ a.sid = d.sid ∧ a.badDealer = false ∧
       a.responses = (List.replicate v.vs.length none).set v.index (some r) ∧
-      (a.deal = none ∨ a.deal = some d) ∧ (r.status = true → a.deal = some d)) := by
+      (a.deal = none ∨ a.deal = some d) ∧ (r.status = true → a.deal = some d) ∧ a.t = d.t) := by
   rcases hd : decryptDeal g v e with err | d
   · exact Or.inl ⟨err, process_decrypt_error g v e rnd err hd⟩
   · rcases hsh : d.share with _ | sh
@@ -64,14 +64,14 @@ theorem pe_fresh (g : G) (v : Verifier F G) (e : EncDeal F G) (rnd : Nat)
         generalize hvd : verifyDeal g (newAgg (S := F) v.dealer v.vs d.commits d.t d.sid) d true = res at *
         obtain ⟨a1, verr⟩ := res
         simp only at hst hna hiff
-        obtain ⟨h1, h2, h3, h4, h5, h6, h7⟩ := hst
+        obtain ⟨h1, h2, h3, h4, h5, h6, h7, h8⟩ := hst
         have hadd : ¬ (v.index ≥ a1.vs.length) := by rw [h1]; omega
         have hhas : hasResponse a1 v.index = false := by
           simp [hasResponse, getResponse, h4, hidx]
         let r : Response F G := ⟨Sid.h v.dealer v.vs d.commits d.t, v.index, verr.isNone,
           RespSig.sign v.long (Sid.h v.dealer v.vs d.commits d.t) v.index verr.isNone rnd⟩
         refine ⟨d, r, { a1 with responses := a1.responses.set v.index (some r) }, rfl, ?_, rfl, rfl, rfl, ?_, ?_,
-          h1, h2, h3, h5, ?_, h6, ?_⟩
+          h1, h2, h3, h5, ?_, h6, ?_, h8⟩
         · simp only [processEncryptedDeal, hd, hsh, hvn, Bool.false_eq_true, hi, ne_eq, not_true_eq_false, if_false, hv, hvd, hna]
           simp only [addResponse, hadd, if_false, hhas, Bool.false_eq_true]
           rfl
@@ -301,7 +301,7 @@ theorem processDeal_good0 (g : G) (d : Gen F G) (dd : DkgDeal F G) (hd : GoodGen
         rcases hdeal : dd.deal with _ | e
         · exact key ver hvd hvv hvl hvi (by intro a ha; rw [hva] at ha; cases ha)
         · simp only
-          rcases pe_fresh g ver e 0 hva (by rw [hvi, hvv]; exact hd.lt) with ⟨err, herr⟩ | ⟨dl, r, a, hdec, hpe, hri, hrs, hsig, hst, hshare, h1, h2, h3, h5, h4, h6, h7⟩
+          rcases pe_fresh g ver e 0 hva (by rw [hvi, hvv]; exact hd.lt) with ⟨err, herr⟩ | ⟨dl, r, a, hdec, hpe, hri, hrs, hsig, hst, hshare, h1, h2, h3, h5, h4, h6, h7, _⟩
           · rw [herr]
             exact key ver hvd hvv hvl hvi (by intro a ha; rw [hva] at ha; cases ha)
           · rw [hpe]
